@@ -217,6 +217,58 @@ fn c01_shard(ctx: &Ctx, out: &mut ShardOut) {
     let lb = Budget { single: 0, double: 0, coarse2: 0, tapes: ctx.by_tier(24, 200) as usize, tape_seed: ctx.shard_seed(92) };
     C01L.run(ctx, &pool, 2, ctx.share(ctx.by_tier(128, 4_000)) as u32, &lb, out);
     C01M.run(ctx, &pool, 3, ctx.share(ctx.by_tier(160, 5_000)) as u32, &lb, out);
+    c01_set_run(ctx, &pool, out);
+}
+
+/// concurrent `HashSet` programs through all four facades (setconc.rs)
+fn c01_set_run(ctx: &Ctx, pool: &Pool, out: &mut ShardOut) {
+    use crate::setconc as sc;
+    let before = out.violations.len();
+    let (single, double, tapes) = (ctx.by_tier(300, 3000) as usize, ctx.by_tier(60, 1500) as usize, ctx.by_tier(16, 120) as usize);
+    let seed = ctx.shard_seed(93);
+    drive_n(ctx, "lin-set", ctx.shard_seed(4), ctx.share(ctx.by_tier(480, 8_000)) as u32, 120, sc::prog_strategy(3, 3), out, |prog| {
+        let ex = sc::explore(pool, prog, single, double, tapes, seed);
+        match ex.failure {
+            Some((sw, prop, msg)) => Err(CaseFail { prop, msg: format!("{} [after preemptions {:?}]", msg, sw) }),
+            None => Ok(CaseInfo {
+                nontrivial: !ex.nontrivial.is_empty(),
+                classes: {
+                    let mut c: Vec<(&'static str, u64)> = ex.classes.into_iter().collect();
+                    c.push(("set_programs", 1));
+                    c
+                },
+                evaluations: ex.schedules,
+                sub_hashes: ex.nontrivial,
+            }),
+        }
+    });
+    for v in out.violations.iter_mut().skip(before) {
+        if let Some(case) = v.replay.get("case").cloned() {
+            if let Ok(prog) = serde_json::from_value::<sc::SetProg>(case) {
+                let ex = sc::explore(pool, &prog, single, double, tapes, seed);
+                let schedule = ex.failure.map(|(sw, _, _)| sc::minimize(pool, &prog, &sw));
+                v.replay = serde_json::json!({"sub": "lin-set", "case": sc::SetCase { prog, schedule }});
+            }
+        }
+    }
+}
+
+fn c01_set_replay(pool: &Pool, case: &Value) -> Result<(), CaseFail> {
+    use crate::setconc as sc;
+    let cc: sc::SetCase = match serde_json::from_value::<sc::SetCase>(case.clone()) {
+        Ok(c) => c,
+        Err(_) => match serde_json::from_value::<sc::SetProg>(case.clone()) {
+            Ok(p) => sc::SetCase { prog: p, schedule: None },
+            Err(e) => return Err(CaseFail { prop: "C01".into(), msg: format!("bad replay file: {}", e) }),
+        },
+    };
+    match &cc.schedule {
+        Some(sw) => sc::judge(&sc::exec(pool, &cc.prog, sw.clone(), None, false)).map(|_| ()).map_err(|(p, m)| CaseFail { prop: p, msg: m }),
+        None => match sc::explore(pool, &cc.prog, 3000, 1500, 120, 1).failure {
+            Some((sw, prop, msg)) => Err(CaseFail { prop, msg: format!("{} [after preemptions {:?}]", msg, sw) }),
+            None => Ok(()),
+        },
+    }
 }
 fn c01_replay(sub: &str, case: &Value) -> Result<(), CaseFail> {
     let pool = Pool::new();
@@ -225,6 +277,9 @@ fn c01_replay(sub: &str, case: &Value) -> Result<(), CaseFail> {
     }
     if sub == "lin-long-mixed" {
         return C01M.replay(&pool, case, &Budget { single: 0, double: 0, coarse2: 0, tapes: 200, tape_seed: 1 });
+    }
+    if sub == "lin-set" {
+        return c01_set_replay(&pool, case);
     }
     C01.replay(&pool, case, &budget_for(Tier::Thorough, 1))
 }
